@@ -1063,13 +1063,24 @@ func (c *Cluster) doPropose(n *Node, a Action) bool {
 	c.chk.onProposeCall(n, a.Tags, ents)
 	var err error
 	m := &pb.Message{Type: pb.MsgProp.Enum(), From: new(n.id), Entries: ents}
+	wasLeader := isLeader(&n.st)
 	if len(ents) == 1 && !a.B {
-		// NB: the client never touches the payload buffer again. raft does not
-		// promise to copy it: a follower forwards the proposal with the caller's
-		// slice still inside the message until the transport marshals it.
 		err = n.call("Propose", m, func() error { return n.rn.Propose(ents[0].GetData()) })
 	} else {
 		err = n.call("Propose", m, func() error { return n.rn.Step(m) })
+	}
+	if a.J == 1 && wasLeader {
+		// The client reuses its payload buffer once the call has returned. Only
+		// at a leader: a leader stamps term and index on its own copy of the
+		// proposal, whereas a follower forwards the proposal with the caller's
+		// slice still inside the message until the transport marshals it, so
+		// there the client must leave the buffer alone.
+		for _, e := range ents {
+			for i := range e.Data {
+				e.Data[i] ^= 0xff
+			}
+		}
+		c.stats.fault("client_buffer_reuse")
 	}
 	c.chk.onProposeReturn(n, a.Tags, err)
 	return true
